@@ -2077,6 +2077,7 @@ pub fn run(ctx: &mut Ctx) {
         "phrase slop: real scoring-on / scoring-off scorers = Lean phraseOn / phraseOff per document".into(),
         "i64_to_u64 / f64_to_u64 = Gen.OrderEnc (extracted), monotone on sorted samples, term bytes = big-endian".into(),
         "range over a numeric JSON path (i64 / u64 bound term × i64 / u64 column, incl / excl / unbounded): DocSetCollector, TopDocs, Count = numeric meaning = Lean JsonRange.implMatch per segment; column type = colOf".into(),
+        "phrase-prefix queries with position gaps / shifted offsets: all paths = Lean semPhrasePrefix (C03_phrase_prefix_iff)".into(),
         "exhaustive boolean trees (≤ 2 clauses quick, ≤ 3 thorough) × occur × msm over term/all/empty leaf kinds: all paths = answer = compile model".into(),
     ];
     std::panic::set_hook(Box::new(|info| {
@@ -2145,4 +2146,33 @@ pub fn run(ctx: &mut Ctx) {
     // last, so that the random stream of the stages above is unchanged
     let (jc, jq) = (ctx.budget(8, 120), ctx.budget(30, 60) as usize);
     check_json_ranges(ctx, jc, jq);
+    // phrase-prefix queries with position gaps (before the prefix term, between full terms, offsets
+    // not starting at 0): C03_phrase_prefix_iff / C03_phrase_prefix_gap
+    for _ in 0..ctx.budget(4, 60) {
+        let mut rng = ctx.rng.fork();
+        let spec = gen_corpus(&mut rng, 1);
+        let b = match build(&spec) { Ok(b) => b, Err(_) => continue };
+        let pools = pools_of(&b);
+        let mut qs: Vec<Q> = vec![];
+        for _ in 0..12 {
+            let g = 1 + rng.usize_below(3);
+            let base = rng.usize_below(3);
+            let three = rng.chance(1, 3);
+            let need = if three { 2 + g } else { 1 + g };
+            let Some(ws) = seq_terms(&mut rng, &pools, need) else { continue };
+            let cut = |w: &String, rng: &mut Rng| -> String { let cs: Vec<char> = w.chars().collect(); cs[..1 + rng.usize_below(cs.len())].iter().collect() };
+            let terms: Vec<(usize, String)> = if three {
+                vec![(base, ws[0].clone()), (base + 1, ws[1].clone()), (base + 1 + g, cut(&ws[1 + g], &mut rng))]
+            } else {
+                vec![(base, ws[0].clone()), (base + g, cut(&ws[g], &mut rng))]
+            };
+            let leaf = Q::PhrasePrefix { f: F_BODY, terms };
+            qs.push(leaf.clone());
+            if rng.chance(1, 2) { qs.extend(context_queries(&mut rng, &pools, &leaf).into_iter().take(2)); }
+        }
+        ctx.report.count_n("phrase-prefix-gap:queries", qs.len() as u64);
+        for chunk in qs.chunks(16) {
+            check_queries(ctx, &spec, &b, chunk);
+        }
+    }
 }
